@@ -213,7 +213,13 @@ class Narrower:
                 core_ = v_.operand if isinstance(v_, ast.UnaryOp) and isinstance(v_.op, ast.Not) else v_
                 if isinstance(core_, ast.Call) and isinstance(core_.func, ast.Name) and core_.func.id == "isinstance":
                     return self.narrow_test(v_, env)
-            # truthiness of a model-typed local: same correlation as `is not None`
+            # truthiness of a model-typed local: same correlation as `is not None` - but an Aggregate IS a list of its
+            # repeated members, so one that cannot have any (no ListAggregate / ListElement child) is always falsy
+            ty_ = env.get(test.id)
+            if isinstance(ty_, frozenset):
+                never = sorted(c.name for c in ty_ if isinstance(c, ClassInfo) and self.s.is_aggregate(c) and not any(ch.is_list for ch in self.s.spec(c).values()))
+                if never:
+                    self.rep.check(self.rule, f"{self.recv.name}.{self.fn.name}:truthiness-of({test.id})", False, f"`{test.id}` is tested for truth, but it can be a {never[0]}, which declares no repeated child: every instance is an empty list and therefore falsy, however many of its (non-repeated) children are set - the branch for 'present' is never taken (use `is not None`)", self.where(test))
             fake = ast.Compare(left=test, ops=[ast.IsNot()], comparators=[ast.Constant(value=None)])
             return self.narrow_test(fake, env)
         if isinstance(test, ast.UnaryOp) and isinstance(test.op, ast.Not):
@@ -224,7 +230,11 @@ class Narrower:
             for v in test.values:
                 cur, _ = self.narrow_test(v, cur)
             return cur, dict(env)
-        self.type_of(test, env)
+        ty_ = self.type_of(test, env)
+        if isinstance(test, ast.Attribute) and isinstance(ty_, frozenset):
+            never = sorted(c.name for c in ty_ if isinstance(c, ClassInfo) and self.s.is_aggregate(c) and not any(ch.is_list for ch in self.s.spec(c).values()))
+            if never:
+                self.rep.check(self.rule, f"{self.recv.name}.{self.fn.name}:truthiness-of({text(test)})", False, f"`{text(test)}` is tested for truth, but it can be a {never[0]}, which declares no repeated child: every instance is an empty list and therefore falsy, however many of its (non-repeated) children are set - the branch for 'present' is never taken (use `is not None`)", self.where(test))
         return t_env, f_env
 
     def merge(self, a: Dict[str, Types], b: Dict[str, Types]) -> Dict[str, Types]:
